@@ -77,33 +77,50 @@ def run_tlc(module, cfg, workdir=None, workers=None, timeout=1800, env=None, ext
 
 
 def tlc_tuples(out, tag):
-    """parse lines printed by PrintT(<<"TAG", ...>>) -> list of python tuples (strings / ints only)"""
+    """parse tuples printed by PrintT(<<"TAG", ...>>) (possibly wrapped over several lines) -> list of python tuples"""
     res = []
-    for ln in out.splitlines():
-        ln = ln.strip()
-        if ln.startswith('<<"' + tag + '"'):
-            body = ln[2:-2]
-            parts, cur, inq = [], "", False
-            for ch in body:
-                if ch == '"':
-                    inq = not inq
-                    cur += ch
-                elif ch == "," and not inq:
-                    parts.append(cur.strip())
-                    cur = ""
-                else:
-                    cur += ch
-            parts.append(cur.strip())
-            vals = []
-            for p_ in parts:
-                if p_.startswith('"'):
-                    vals.append(p_[1:-1])
-                else:
-                    try:
-                        vals.append(int(p_))
-                    except ValueError:
-                        vals.append(p_)
-            res.append(tuple(vals))
+    pat = re.compile(r'<<\s*"' + re.escape(tag) + '"')
+    pos = 0
+    while True:
+        m = pat.search(out, pos)
+        if not m:
+            break
+        i, inq, k = m.start() + 2, False, None
+        while i < len(out):
+            ch = out[i]
+            if ch == '"':
+                inq = not inq
+            elif not inq and out.startswith(">>", i):
+                k = i
+                break
+            i += 1
+        if k is None:
+            break
+        body = out[m.start() + 2:k]
+        pos = k + 2
+        parts, cur, inq = [], "", False
+        for ch in body:
+            if ch == '"':
+                inq = not inq
+                cur += ch
+            elif ch == "," and not inq:
+                parts.append(cur.strip())
+                cur = ""
+            elif ch == "\n" and not inq:
+                cur += " "
+            else:
+                cur += ch
+        parts.append(cur.strip())
+        vals = []
+        for p_ in parts:
+            if p_.startswith('"'):
+                vals.append(p_[1:-1])
+            else:
+                try:
+                    vals.append(int(p_))
+                except ValueError:
+                    vals.append(p_)
+        res.append(tuple(vals))
     return res
 
 
